@@ -342,8 +342,17 @@ func (i *interpreter) formatString(fr *frame, sp spec, s value) []value {
 	case 's', 'v':
 		bs := []value(ss)
 		if sp.hasP && sp.prec < len(bs) {
-			// precision counts runes; only exact for ASCII, so require concretisation
-			panic(pathEnd{kind: "unsupported", msg: "%.Ns of a symbolic string"})
+			// precision counts runes: walk the string with the real decoder (forks on
+			// the symbolic lead bytes)
+			n := 0
+			rest := value(ss)
+			for k := 0; k < sp.prec && strLen(rest) > 0; k++ {
+				t := i.callByName(fr, "unicode/utf8.DecodeRuneInString", rest).(tuple)
+				w := int(asInt64(t[1]))
+				n += w
+				rest = i.slice(rest, w, nil, nil)
+			}
+			bs = bs[:n]
 		}
 		if sp.hasW && sp.width > len(bs) {
 			pad := litBytes(strings.Repeat(" ", sp.width-len(bs)))
